@@ -50,7 +50,8 @@ Verdict(r) ==
   LET s == S!Read(r.sp)
       E == IF s.st # "ok" THEN {} ELSE { f \in Embeddings(r.p, r.t, Nodes(r.t)) : StereoOK(s, r.t, f) }
       obs == { r.maps[k] : k \in 1..Len(r.maps) }
-  IN If(s.st # "ok", "MACHINERY:pattern-text-not-readable")
+  IN If(r.exc # "", "search-raised:" \o r.exc)
+     \cup If(s.st # "ok", "MACHINERY:pattern-text-not-readable")
      \cup If(~(obs \subseteq E), "stereo-query-matched-another-configuration")
      \cup If(~(E \subseteq obs), "stereo-query-missed-its-configuration")
      \cup If(Cardinality(obs) # Len(r.maps), "duplicate-mapping")
